@@ -3,7 +3,7 @@
 From Coq Require Import Ascii String List Bool Arith ZArith NArith Lia.
 From PTBase Require Import Exn PyStr PyNum PyVal Fmt FixedFormat.
 From Gen Require Import GenTables GenSections.
-From P Require Import Comb Obj Fields Idem Sections SectionsB Rec Prog SecRocks SecMesh SecGener SecMisc SecParam SecHist SecSel SecShort SecMeshm IdemSec T2DataIO IdemMeshm.
+From P Require Import Comb Obj Fields Idem Sections SectionsB Rec Prog SecRocks SecMesh SecGener SecMisc SecParam SecHist SecSel SecShort SecMeshm IdemSec T2DataIO IdemMeshm RbDigits RbSciTrip RbReadBack RealStable.
 Import ListNotations.
 Open Scope string_scope.
 
@@ -87,37 +87,113 @@ Proof.
   cbn [map citem]. rewrite (layer_vals_d _ _ _ L). reflexivity.
 Qed.
 
-(** ** MULTI: the reader strips the name of the equation of state, the writer pads it again; the program
-    holds the name as it is read back, and the agreement of the two programs is computed ([idem_multi]) *)
-Fixpoint norm_eos (specs : list fspec) (ns : list string) (vals : list value) : list value :=
-  match specs, ns, vals with
-  | f :: fs, n :: r, v :: vs => (if (n =? "eos")%string then cf f v else v) :: norm_eos fs r vs
-  | _, _, _ => vals
+(** ** MULTI: the reader strips the name of the equation of state, the writer pads it again; the program holds
+    the name as it is read back ([neos]); the second program is derived from conditions on that one value *)
+Definition fspec_eqb (a b : fspec) : bool :=
+  (fw a =? fw b)%Z && match fp a, fp b with Some x, Some y => (x =? y)%Z | None, None => true | _, _ => false end && fty_eqb (ft a) (ft b).
+Lemma fspec_eqb_eq a b : fspec_eqb a b = true -> a = b.
+Proof.
+  destruct a as [w1 p1 t1], b as [w2 p2 t2]. unfold fspec_eqb. cbn [fw fp ft]. intro H. apply andb_prop in H as [H T3]. apply andb_prop in H as [W P].
+  apply Z.eqb_eq in W. apply fty_eqb_eq in T3. subst. destruct p1, p2; try discriminate; [apply Z.eqb_eq in P; subst|]; reflexivity.
+Qed.
+Fixpoint eos_field_of (specs : list fspec) (ns : list string) : option fspec :=
+  match specs, ns with f :: fs, n :: r => if (n =? "eos")%string then Some f else eos_field_of fs r | _, _ => None end.
+Fixpoint eos_cols_ok (fe : fspec) (specs : list fspec) (ns : list string) : bool :=
+  match specs, ns with
+  | f :: fs, n :: r => (negb (n =? "eos")%string || fspec_eqb f fe) && eos_cols_ok fe fs r
+  | _, _ => true
   end.
+Definition neos (fe : option fspec) (m : dict) : dict :=
+  match fe, dget m "eos" with Some f, Some v => dset m "eos" (cf f v) | _, _ => m end.
+Lemma neos_other fe m n : n <> "eos" -> dget (neos fe m) n = dget m n.
+Proof. intro NE. unfold neos. destruct fe as [f|]; [|reflexivity]. destruct (dget m "eos"); [|reflexivity]. apply dget_dset_other. exact NE. Qed.
+Lemma neos_same fe m : (forall f v, fe = Some f -> dget m "eos" = Some v -> stable f v) ->
+  forall specs ns, (match fe with Some f => eos_cols_ok f specs ns | None => true end) = true ->
+  fmt_same specs (dict_vals (neos fe m) ns) (dict_vals m ns).
+Proof.
+  intros ST. induction specs as [|f fs IH]; intros ns H; [exact I|]. destruct ns as [|n r]; [exact I|].
+  cbn [dict_vals map fmt_same]. split.
+  - destruct (string_dec n "eos") as [E|NE]; [|unfold dgetv; rewrite neos_other by exact NE; reflexivity].
+    subst n. unfold neos. destruct fe as [g|]; [|reflexivity]. cbn [eos_cols_ok] in H. apply andb_prop in H as [H1 _].
+    rewrite String.eqb_refl in H1. cbn [negb orb] in H1. apply fspec_eqb_eq in H1. subst g.
+    destruct (dget m "eos") as [v|] eqn:G; [|unfold dgetv; rewrite G; reflexivity].
+    unfold dgetv at 1. rewrite dget_dset_same. unfold dgetv. rewrite ?G. apply (ST f v eq_refl); first [exact G|reflexivity].
+  - apply IH. destruct fe as [g|]; [|reflexivity]. cbn [eos_cols_ok] in H. apply andb_prop in H as [_ H]. exact H.
+Qed.
+Definition eos_of (spec : string) : option fspec := eos_field_of (sp spec) (nm spec).
 Definition multi_items (spec : string) (m : dict) : list item :=
-  match m with [] => [] | _ => [Lit (kw "MULTI"); Rec spec (norm_eos (sp spec) (nm spec) (dict_vals m (nm spec)))] end.
+  match m with [] => [] | _ => [Lit (kw "MULTI"); Rec spec (dict_vals (neos (eos_of spec) m) (nm spec))] end.
+Lemma multi_items_ne spec m : nonempty m = true -> multi_items spec m = [Lit (kw "MULTI"); Rec spec (dict_vals (neos (eos_of spec) m) (nm spec))].
+Proof. destruct m; [discriminate|reflexivity]. Qed.
 Definition prog_multi (d : t2d) : list item := multi_items (multi_spec d) (multi d).
-Definition wfw_multi_of (spec : string) (m : dict) : bool :=
-  fmt_sameb (sp spec) (norm_eos (sp spec) (nm spec) (dict_vals m (nm spec))) (dict_vals m (nm spec)).
-Definition wfw_multi (d : t2d) : bool := wfw_multi_of (multi_spec d) (multi d).
+(** the name of the equation of state (when there is one) is a string whose padded text has no newline; the columns
+    called 'eos' have the format found for it *)
+Definition eos_value_ok (spec : string) (m : dict) : bool :=
+  match eos_of spec with
+  | Some f => eos_cols_ok f (sp spec) (nm spec) &&
+              match dget m "eos" with
+              | Some (XStr s) => fty_eqb (ft f) Ts && match fmt_field f (XStr s) with Ok t => no_nl t | Raise _ => false end
+              | Some _ => false
+              | None => true end
+  | None => true
+  end.
+Definition wfw_multi (d : t2d) : bool := eos_value_ok (multi_spec d) (multi d).
+Lemma eos_value_stable spec m : eos_value_ok spec m = true ->
+  (forall f v, eos_of spec = Some f -> dget m "eos" = Some v -> stable f v) /\
+  (match eos_of spec with Some f => eos_cols_ok f (sp spec) (nm spec) | None => true end) = true.
+Proof.
+  unfold eos_value_ok. destruct (eos_of spec) as [g|]; [|intros _; split; [intros; discriminate|reflexivity]].
+  intro H. apply andb_prop in H as [C V]. split; [|exact C]. intros f v E G. injection E as <-. rewrite G in V.
+  destruct v as [s| | |]; try discriminate. apply andb_prop in V as [Ty N]. apply fty_eqb_eq in Ty.
+  destruct (fmt_field g (XStr s)) as [t|] eqn:F; [|discriminate]. apply (name_stable g s t Ty F N).
+Qed.
 Lemma write_multi_prog d : wfw_multi d = true -> write_multi T d = render (prog_multi d).
 Proof.
-  unfold wfw_multi, wfw_multi_of, write_multi, prog_multi, multi_items. intro H. destruct (multi d) as [|e es] eqn:E; [reflexivity|]. rewrite <- E in *.
+  unfold wfw_multi, write_multi, prog_multi, multi_items. intro H. destruct (multi d) as [|e es] eqn:E; [reflexivity|]. rewrite <- E in *.
+  destruct (eos_value_stable _ _ H) as [ST CO].
   unfold Prog.render. cbn [mapM render1 bind]. unfold wline, write_values. fold (sp (multi_spec d)).
-  rewrite (fmt_same_write _ _ _ (fmt_sameb_spec _ _ _ H)). destruct (write_fields _ _); reflexivity.
+  rewrite (fmt_same_write _ _ _ (neos_same _ _ ST _ _ CO)). destruct (write_fields _ _); reflexivity.
 Qed.
+(** the conditions of the second MULTI: the line read into the fresh dictionary gives back its values; the stripped name
+    pads back to the text that was read; it is a well-formed name again *)
 Definition idem_multi (dk d : t2d) : bool :=
-  match strip_eos (canon_dict T (multi_spec d) (multi dk) (multi d)) with
-  | Ok m => wfw_multi_of (multi_spec d) m && items_eqb (multi_items (multi_spec d) m) (map citem (prog_multi d))
+  let spec := multi_spec d in
+  let vs := cvals (sp spec) (dict_vals (multi d) (nm spec)) in
+  let m0 := canon_dict T spec (multi dk) (multi d) in
+  layer_okd (multi dk) (nm spec) vs && wfw_multi d && nonempty (multi d) &&
+  match strip_eos m0 with
+  | Ok m => eos_value_ok spec m && nonempty m &&
+            match eos_of spec, dget m0 "eos" with
+            | Some f, Some (XStr s') => value_eqb (cf f (XStr (strip s'))) (XStr s')
+            | None, Some _ => negb (existsb (String.eqb "eos") (nm spec))
+            | _, _ => true end
   | Raise _ => false
   end.
 Lemma prog_multi_canon dk d X m : idem_multi dk d = true ->
   strip_eos (canon_dict T (multi_spec d) (multi dk) (multi d)) = Ok m -> multi X = m -> autough2 X = autough2 d ->
   prog_multi X = map citem (prog_multi d) /\ wfw_multi X = true.
 Proof.
-  intros ID SE MX AX. unfold idem_multi in ID. rewrite SE in ID. apply andb_prop in ID as [W P]. apply items_eqb_eq in P.
+  intros ID SE MX AX. unfold idem_multi in ID. cbv zeta in ID. rewrite SE in ID.
+  apply andb_prop in ID as [ID H2]. apply andb_prop in ID as [ID NE]. apply andb_prop in ID as [L WD].
+  apply andb_prop in H2 as [H2 EV]. apply andb_prop in H2 as [WM NM].
   assert (SX : multi_spec X = multi_spec d) by (unfold multi_spec; rewrite AX; reflexivity).
-  unfold prog_multi, wfw_multi. rewrite SX, MX. split; [exact P|exact W].
+  split; [|unfold wfw_multi; rewrite SX, MX; exact WM].
+  unfold prog_multi. rewrite SX, MX, (multi_items_ne _ _ NM), (multi_items_ne _ _ NE).
+  set (spec := multi_spec d) in *. set (m0 := canon_dict T spec (multi dk) (multi d)) in *.
+  cbn [map citem].
+  cut (dict_vals (neos (eos_of spec) m) (nm spec) = cvals (sp spec) (dict_vals (neos (eos_of spec) (multi d)) (nm spec))); [intro EQ; rewrite EQ; reflexivity|].
+  destruct (eos_value_stable _ _ WD) as [ST CO]. fold spec in ST, CO.
+  rewrite (fmt_same_cvals _ _ _ (neos_same _ _ ST _ _ CO)).
+  transitivity (dict_vals m0 (nm spec)); [|exact (layer_vals_d _ _ _ L)].
+  apply dict_vals_ext. intros n IN. unfold dgetv.
+  destruct (string_dec n "eos") as [E|NEQ].
+  - subst n. clear MX. unfold strip_eos in SE. destruct (dget m0 "eos") as [[s'| | |]|] eqn:G; try discriminate; injection SE as SE; subst m.
+    + unfold neos. destruct (eos_of spec) as [f|] eqn:EF.
+      * rewrite dget_dset_same, dget_dset_same. apply value_eqb_eq in EV. rewrite EV. reflexivity.
+      * exfalso. apply (not_in_names _ _ EV IN).
+    + unfold neos. destruct (eos_of spec); rewrite ?G; cbv iota; rewrite ?G; reflexivity.
+  - rewrite neos_other by exact NEQ. clear MX. unfold strip_eos in SE. destruct (dget m0 "eos") as [[s'| | |]|]; try discriminate; injection SE as SE; subst m; [|reflexivity].
+    rewrite dget_dset_other by exact NEQ. reflexivity.
 Qed.
 
 (** ** TIMES *)
